@@ -83,6 +83,7 @@ def run(ctx):
     check_basic_uniqueness(ctx, P)
     # core
     fkc = "BlsSignatureCore::core_aggregate_verify"
+    F.check_aggregate_key_guard(ctx, "E4.keyvalidate", P)
     c = ctx.need_fn("E4.loop", fkc)
     if c is not None:
         ents = F.entry_builders(P, c)
